@@ -253,10 +253,13 @@ Print Assumptions C14_copy_via_constructor_refuted.
 (* ---- outside the round trip's side conditions pickle is not faithful: Holder(a=1, b="x") keeps both raw members of
         the oneof (the constructor does no sibling reset), only the selected one is encoded, and == reads raw values ---- *)
 Theorem C14_pickle_oneof_unclean_refuted :
-  exists sc o o', wf_schema sc = true /\ shaped_obj sc o = true /\ oneof_clean sc o = false /\
-    pickle_rt sc o = Ok o' /\ obj_eq sc o' o = false /\ enc_obj sc o' = enc_obj sc o.
+  exists sc o, wf_schema sc = true /\ shaped_obj sc o = true /\ oneof_clean sc o = false /\
+    match pickle_rt sc o with
+    | Ok o' => obj_eq sc o' o = false /\ enc_obj sc o' = enc_obj sc o
+    | Err _ => False
+    end.
 Proof.
   exists ex_schema, (construct ex_schema 13 [(2%nat, PInt 1); (3%nat, PStr [x78])]).
-  eexists. vm_compute. repeat split; reflexivity.
+  vm_compute. repeat split; reflexivity.
 Qed.
 Print Assumptions C14_pickle_oneof_unclean_refuted.
